@@ -45,7 +45,7 @@ def run(ctx, n):
                        'validate(normalize=False) on the real code vs the Lean reference interpreter; compared: verdict and the '
                        'error forest (document path, code, schema path, rule, value, constraint, *of counts, children); '
                        'non-trivial = at least one error; distinct by canonical (schema, document, config)')
-    profiles = ['validate', 'of', 'deep', 'wrong', 'validate', 'mixed', 'nones']
+    profiles = ['validate', 'of', 'deep', 'wrong', 'update', 'mixed', 'nones', 'validate']
     with Driver() as drv:
         for i, prof, case, g in cases.stream(ctx.seed, n, profiles):
             if cases.accepted(case) is not True:
@@ -74,7 +74,7 @@ def run(ctx, n):
 
 
 def search(ctx, n):
-    profiles = ['validate', 'of', 'deep', 'wrong']
+    profiles = ['validate', 'of', 'deep', 'wrong', 'update']
     with Driver() as drv:
         for i, prof, case, g in cases.stream(ctx.seed + 7919, n, profiles):
             if cases.accepted(case) is not True:
